@@ -52,7 +52,9 @@ static void* (*g_realMalloc)(size_t) = 0; static void* (*g_realRealloc)(void*, s
 struct Steered { void* raw; size_t size; };
 static Map<uintptr_t, Steered>& steered() { static Map<uintptr_t, Steered>* m = new (::malloc(sizeof(Map<uintptr_t, Steered>))) Map<uintptr_t, Steered>(); return *m; }
 static uint64_t g_steerSeed = 0, g_steerCount = 0; static int g_steerMode = -1;      // -1 varied residues, 0..72 every block in that bucket
+static bool g_steerOn = false;
 static void* steerMalloc(size_t n) {
+    if (!g_steerOn) return g_realMalloc(n);
     char* raw = (char*)g_realMalloc(n + 16 * 73 + 32);
     if (!raw) return 0;
     unsigned want = g_steerMode >= 0 ? (unsigned)g_steerMode : (unsigned)(mix64(g_steerSeed, ++g_steerCount) % 73);
@@ -63,15 +65,16 @@ static void* steerMalloc(size_t n) {
 }
 static void steerFree(void* p) {
     if (!p) return;
+    if (steered().empty()) { g_realFree(p); return; }
     Map<uintptr_t, Steered>::iterator it = steered().find((uintptr_t)p);
-    if (it == steered().end()) { g_realFree(p); return; }       // allocated before the seam existed
+    if (it == steered().end()) { g_realFree(p); return; }       // allocated before the seam existed, or in a run without steering
     void* raw = it->second.raw; steered().erase(it); g_realFree(raw);
 }
 static void* simRealloc(void* p, size_t n) {
     if (g_failNextRealloc) { g_failNextRealloc = false; fired("platform_realloc_null"); return 0; }
     if (!p) return steerMalloc(n);
     Map<uintptr_t, Steered>::iterator it = steered().find((uintptr_t)p);
-    if (it == steered().end()) return g_realRealloc(p, n);
+    if (it == steered().end()) return g_realRealloc(p, n);      // a block from before the seam or from a run without steering stays what it is
     size_t old = it->second.size;
     void* q = steerMalloc(n ? n : 1);
     if (!q) return 0;
@@ -498,7 +501,7 @@ static void staticWrapperEpilogue(const Desc& d, Obs& o) {
 
 void executeRun(const Desc& d, Obs& o) {
     installBasicSeams();
-    installHeapSeam(); g_steerSeed = d.seed; g_steerCount = 0; g_steerMode = (int)d.pi("bucket", -1);
+    installHeapSeam(); g_steerSeed = d.seed; g_steerCount = 0; g_steerMode = (int)d.pi("bucket", -1); g_steerOn = d.pi("steer", 0) != 0 || g_steerMode >= 0;
     static bool first = true;
     if (first) { first = false; for (int i = 0; i < N_TARGETS; i++) g_tgt[i] = &g_init[i]; }
     MemoryLeakWarningPlugin* leak = new (leakPluginStorage()) MemoryLeakWarningPlugin(DEF_PLUGIN_MEM_LEAK);
